@@ -546,3 +546,32 @@ Proof.
   intros x. apply B3; [|exact Hsol]. intros n. destruct (orig_bounds plan n Hnn) as [Hlo _].
   rewrite orig_start_plan in Hlo. exact Hlo.
 Qed.
+
+(* ------------------------------------------------------------------ explicit epsilon: the library's conformance test is not enough *)
+Definition wit_A : step :=
+  {| st_start := 1; st_dur := Some 4;
+     st_effs := [ {| tg_anchor := FromEnd; tg_delay := 0 |} ];
+     st_conds := [ {| iv_lo := {| tg_anchor := FromStart; tg_delay := 0 |}; iv_hi := {| tg_anchor := FromEnd; tg_delay := 0 |};
+                      iv_lopen := true; iv_ropen := false |} ];
+     st_dyn := false |}.
+Definition wit_inst (t : Q) : step := {| st_start := t; st_dur := None; st_effs := []; st_conds := []; st_dyn := false |}.
+Definition wit_plan : list step := [wit_inst 0; wit_A; wit_inst (23 # 16)].
+Definition wit_edges : list (nat * nat) := [(0, 1); (1, 2); (2, 3)]%nat.
+
+Lemma conformant_epsilon_refuted :
+  ~ (forall E xe effs conds plan edges,
+       extract_epsilon (mock_step effs conds) plan = Some xe -> E <= xe -> 0 < E ->
+       times_nonneg plan = true ->
+       edges_forward (length (plan_events E (mock_step effs conds) plan)) edges = true ->
+       forall c, In c (flatten (conv_constraints E (mock_step effs conds) plan edges)) -> sat_pcon (orig_time plan) c).
+Proof.
+  intros H.
+  specialize (H (1 # 4) (7 # 16) [] [] wit_plan wit_edges).
+  assert (E1 : extract_epsilon (mock_step [] []) wit_plan = Some (7 # 16)) by (vm_compute; reflexivity).
+  assert (E2 : (1 # 4) <= (7 # 16)) by (unfold Qle; simpl; lia).
+  assert (E3 : 0 < (1 # 4)) by reflexivity.
+  specialize (H E1 E2 E3 eq_refl eq_refl ((4%N, Some (8 # 16), None, 6%N))).
+  assert (Hin : In (4%N, Some (8 # 16), None, 6%N) (flatten (conv_constraints (1 # 4) (mock_step [] []) wit_plan wit_edges))).
+  { vm_compute. right. right. right. left. reflexivity. }
+  specialize (H Hin). destruct H as [H _]. vm_compute in H. apply H. reflexivity.
+Qed.
